@@ -416,6 +416,10 @@ def check_loaded(j0, dic, cfg):
                 o = get("coalescent.theta")
                 got = o.tensor.detach().to(torch.float64)
                 wantt = torch.full_like(got, want)
+            elif id_ == "@tree.blens.sorted":
+                o = get("tree.blens")
+                got = o.tensor.detach().to(torch.float64).reshape(-1).sort().values
+                wantt = torch.tensor(sorted(want), dtype=torch.float64)
             else:
                 o = get(id_)
                 if o is None:
@@ -431,7 +435,8 @@ def check_loaded(j0, dic, cfg):
         except BaseException as e:
             init.append(dict(id=id_, status="error", msg=f"{type(e).__name__}: {str(e)[:100]}"))
     for it in init:
-        o = get("coalescent.theta" if it["id"] == "@theta" else ("tree" if it["id"] == "@tree.height" else it["id"]))
+        o = get("coalescent.theta" if it["id"] == "@theta" else ("tree" if it["id"] == "@tree.height" else
+                                                                  "tree.blens" if it["id"] == "@tree.blens.sorted" else it["id"]))
         tr = getattr(o, "transform", None)
         it["via"] = type(tr).__name__ if tr is not None else type(o).__name__
     res["init"] = init
@@ -668,6 +673,35 @@ def data_path(name):
     return os.path.join(C.REPO, "data", name)
 
 
+def tiny_branch_lengths():
+    import re
+    return sorted(float(x) for x in re.findall(r":([0-9.eE+-]+)", open(data_path("tiny.nwk")).read()))
+
+
+def rooted_tree_file():
+    """The tree of data/tiny.nwk (written there with a trifurcating root, the last child a tip) written as a ROOTED
+    newick whose last root child is that tip: the same unrooted tree, the tip's branch split over the two root edges."""
+    src = open(data_path("tiny.nwk")).read().strip()
+    body = src[1:src.rindex(")")]                 # X,Y,Z  (Z = the last child, a tip `name:length`)
+    depth, cut = 0, None
+    for i, ch in enumerate(body):
+        depth += ch == "("
+        depth -= ch == ")"
+        if ch == "," and depth == 0:
+            cut = i
+    rest, last = body[:cut], body[cut + 1:]
+    name, length = last.rsplit(":", 1)
+    length = float(length)
+    a = round(length * 0.375, 9)
+    text = f"(({rest}):{a!r},{name}:{length - a!r});\n"
+    path = os.path.join(C.WORKROOT, PID, "tiny_rooted_outgroup_last.nwk")
+    os.makedirs(os.path.dirname(path), exist_ok=True)
+    if not os.path.exists(path) or open(path).read() != text:
+        with open(path, "w") as f:
+            f.write(text)
+    return path
+
+
 def build_argv(c):
     """-> (argv, requests)"""
     c = normalise(c)
@@ -718,6 +752,12 @@ def build_argv(c):
                 req["tree.blens"] = 0.05
     if c["keep"]:
         a += ["--keep"]
+        if c["clock"] == "none" and not c.get("poisson"):
+            # the lengths kept are the ones of the tree file, however the file is rooted: half of these runs read the
+            # same tree from a ROOTED newick whose last root child is a tip
+            if sum(map(ord, json.dumps(c, sort_keys=True, default=str))) % 2 == 0:
+                a[a.index("-t") + 1] = rooted_tree_file()
+            req["@tree.blens.sorted"] = tiny_branch_lengths()
     tp = c["tprior"]
     if tp.startswith("bd-"):
         a += ["--birth-death", tp[3:]]
@@ -907,6 +947,9 @@ PROBES = [
     "mcmc --clock strict --coalescent constant --include_jacobian",
     "advi --clock strict --coalescent constant --include_jacobian",
     "map --clock strict --coalescent constant --include_jacobian",
+    # the lengths of the tree file are kept, however the file roots the tree (`@rooted` = the same tree written as a
+    # rooted newick whose last root child is a tip)
+    "hmc --keep @rooted", "mcmc --keep @rooted", "map --keep @rooted", "advi --keep @rooted", "hmc --keep",
 ]
 
 
@@ -914,6 +957,8 @@ def probe_cfgs():
     out = []
     for line in PROBES:
         a = line.split()
+        rooted = "@rooted" in a
+        a = [x for x in a if x != "@rooted"]
         if "--poisson" in a:
             argv = [a[0], "-t", data_path("tiny.nwk")] + a[1:]
         else:
@@ -923,6 +968,10 @@ def probe_cfgs():
         req = {}
         if "--coalescent_init" in a:
             req["@theta"] = float(a[a.index("--coalescent_init") + 1])
+        if "--keep" in a and "--clock" not in a:
+            req["@tree.blens.sorted"] = tiny_branch_lengths()
+            if rooted:
+                argv[argv.index("-t") + 1] = rooted_tree_file()
         out.append(dict(argv=argv, requests=req, run=True, probe=True))
     return out
 
@@ -1147,6 +1196,24 @@ def judge(rec, m):
     for it in ch.get("init", []):
         add(f"C19:init:{it['status']}:{it['id']}:{it.get('via', '')}",
             f"initial value of `{it['id']}' after loading differs from the requested one: {it}")
+    # ---- which parameters of the substitution model are estimated: those the model named on the command line has
+    #      (K80: kappa; HKY: kappa and frequencies; SYM: rates; GTR: rates and frequencies; MG94: alpha, beta, kappa;
+    #      SRD06: kappa and frequencies of each partition; JC69, LG, WAG: none) — never more
+    argv = rec["argv"]
+    model_name = argv[argv.index("-m") + 1] if "-m" in argv and argv.index("-m") + 1 < len(argv) else "JC69"
+    free = {"JC69": [], "LG": [], "WAG": [], "K80": ["kappa"], "HKY": ["kappa", "frequencies"], "SYM": ["rates"],
+            "GTR": ["rates", "frequencies"], "MG94": ["alpha", "beta", "kappa"],
+            "SRD06": ["12.kappa", "12.frequencies", "3.kappa", "3.frequencies"]}.get(model_name)
+    if free is not None:
+        allowed = {"substmodel." + x for x in free}
+        for mid in ch.get("moved") or []:
+            base = mid[:-len(".unres")] if mid.endswith(".unres") else mid
+            known = {"substmodel." + x for x in ("kappa", "frequencies", "rates", "alpha", "beta", "12.kappa",
+                                                   "12.frequencies", "3.kappa", "3.frequencies")}
+            if base in known and base not in allowed:      # (trait models have their own substitution models)
+                add(f"C19:estimated:not-a-parameter-of-{model_name}:{base}",
+                    f"`{mid}' is handed to the inference algorithm as a free parameter, but {model_name} has no free "
+                    f"`{base.split('.', 1)[1]}' (free parameters of {model_name}: {sorted(allowed) or 'none'})")
     # ---- Jacobians
     if m is not None:
         if m["moved"] != ch.get("moved") or m["targets"] != ch.get("targets"):
